@@ -172,6 +172,12 @@ def scenario(ch, cfg):
                    "nabla-literal": f"{point}∇f"}[form]
             fcall = "f(a)"
         point_desc = {"a": point}
+    if ch.draw(3, "inside_function") == 0:
+        # the operator evaluated inside a function call (the documented step::{grad::loss:>theta;...} pattern): the
+        # innermost scope is then the function's frame, the parameters are globals all the same
+        setup.append("step::{[g];g::" + src + ";g}")
+        src = "step()"
+        bump("probe_operator_inside_a_function")
     if form in ("nabla-symbol",):
         bump("probe_symbol_point_rebinding")
     if "literal" in form:
@@ -293,17 +299,36 @@ def scenario(ch, cfg):
     # ---- multi-step history: the user moves the parameter (a gradient step) and differentiates again
     if not violations:
         bump("probe_reassign_then_repeat")
+        if ref[0] == "ok":
+            # the application keeps the result of the first computation (grads::...): a later computation must not
+            # change what it kept
+            run(f"prevg::{src}")
+            bump("probe_earlier_result_kept_in_a_variable")
+        descent = ref[0] == "ok" and form in ("nabla-variable", "nabla-symbol") and kind in ("vec", "real") and ch.draw(4, "descent") != 0
         for name, pt in point_desc.items():
             others = [p for p in POINTS.get({"[": "vec"}.get(pt[0], "real"), []) if p != pt]
             newpt = (others[0] if others else pt)
             if pt.startswith("[[") or ("." not in pt):
                 newpt = pt          # keep matrices / integer points as they are (kind must stay the same)
-            klong(f"{name}::{newpt}")
+            if descent:
+                # the documented descent step: the parameter becomes what the arithmetic makes of it (on the torch
+                # backend a float64 tensor, where literals are float32)
+                bump("probe_parameter_after_a_descent_step")
+                run(f"{name}::{name}-(0.1*{name}∇f)")
+            else:
+                klong(f"{name}::{newpt}")
         for rep in range(2):
             before = _snapshot(klong)
             r = run(src)
             evaluations += 1
             compare(before, _snapshot(klong), f"{src} evaluated again after the parameter(s) were reassigned (repeat {rep + 1}) -> {str(r)[:60]}")
+        for k in range(1, min(n_ticks, 6) + 1):
+            before = _snapshot(klong)
+            r = run(src, fail_at=k, mode="klong")
+            evaluations += 1
+            compare(before, _snapshot(klong), f"{src} after the parameter(s) were reassigned, failing at evaluation tick {k} -> {r}")
+            if violations:
+                break
     # ---- statically unknown name
     if not violations:
         bump("probe_unknown_name")
